@@ -386,7 +386,7 @@ def extract_model(model, model_vars, cap=70000):
             n = model.eval(desc["n"], model_completion=True)
             n = max(0, n.as_long()) if z3.is_int_value(n) else 0
             objs = []
-            for i in range(min(n, 64)):
+            for i in range(min(n, cap)):
                 o = {}
                 for f, (fk, arr) in desc["fields"].items():
                     if fk.startswith("seq:"):
@@ -397,7 +397,7 @@ def extract_model(model, model_vars, cap=70000):
                     e = model.eval(z3.Select(arr, z3.IntVal(i)), model_completion=True)
                     o[f] = _pyval(e, "int" if fk == "link" else fk)
                 objs.append(o)
-            out[name] = {"region": True, "n": n, "objects": objs, "truncated": n > 64}
+            out[name] = {"region": True, "n": n, "objects": objs, "truncated": n > cap}
     return out
 
 
